@@ -6,6 +6,7 @@ cd "$(dirname "$0")/.."
 export VERIF_REPO=${VP_RUN_REPO:-${VERIF_REPO:-/repo}}
 ./check --setup >/dev/null 2>&1
 for d in "$@"; do
+  case "$d" in /*) ;; *) d="$(pwd)/$d";; esac
   id=$(basename $d)
   if ! git -C $VERIF_REPO apply $d/patch.diff; then echo "$id: patch does not apply"; continue; fi
   for p in C01 C02 C03 C04 C05 C06 C07 C08 C09 C10 C11 C12 C13 C14 C15 C16 C17 C19 C20; do
